@@ -102,6 +102,19 @@ S cos_6(const S & x2)
   }
 }
 
+template<typename S>
+S sin_7(const S & x2)
+{
+  using std::sin, std::sqrt;
+
+  if (x2 > S(1)) {
+    const S x = sqrt(x2);
+    return (sin(x) - x + x2 * x / 6 - x2 * x2 * x / 120) / (x2 * x2 * x2 * x);
+  } else {
+    return -taylor_tail<7>(x2);
+  }
+}
+
 /**
  * @brief Compute (1 - (x / 2) cot(x / 2)) / x^2 = 1 / x^2 - (1 + cos x) / (2 x sin x).
  *
